@@ -419,6 +419,9 @@ func (t *streamableHTTPClientTransport) handleSSEResponse(
 	reqID interface{},
 	options *streamOptions,
 ) (*json.RawMessage, error) {
+	// The event stream is ours to close: nothing else does, and an unclosed body keeps the connection open.
+	defer httpResp.Body.Close()
+
 	reader := bufio.NewReader(httpResp.Body)
 	var rawResult *json.RawMessage
 	var resultReceived bool
